@@ -12,9 +12,11 @@ Rd(fn, w, extra) == [op |-> "Read", fn |-> fn, in |-> w, h |-> H] @@ extra
 Ob(fn, cls) == [op |-> "Observe", fn |-> fn, h |-> H, cls |-> cls]
 Sc(off, n) == [op |-> "Scribble", fn |-> "caller", h |-> H, off |-> off, len |-> n]
 ScRet == [op |-> "ScribbleReturned", fn |-> "caller", h |-> H]
+ScRem == [op |-> "ScribbleRem", fn |-> "caller", h |-> H]
 \* whole-buffer history
 Whole(fn, w, extra, cls) ==
-  [ops |-> << Rd(fn, w, extra), Ob(fn, cls), Sc(0, Len(w)), Ob(fn, cls \o "|whole"), ScRet, Ob(fn, cls \o "|whole|returned") >>]
+  [ops |-> << Rd(fn, w, extra), Ob(fn, cls), Sc(0, Len(w)), Ob(fn, cls \o "|whole"), ScRet, Ob(fn, cls \o "|whole|returned"),
+              ScRem, Ob(fn, cls \o "|whole|returned|remainder") >>]
 \* region by region (regions: sequence of <<off, len, name>>), cumulative history
 Regional(fn, w, extra, cls, regions) ==
   [ops |-> << Rd(fn, w, extra), Ob(fn, cls) >>
